@@ -171,7 +171,7 @@ impl Append for RollingFileAppender {
         let mut writer = self.writer.lock();
 
         let is_pre_process = self.policy.is_pre_process();
-        let log_writer = self.get_writer(&mut writer)?;
+        let log_writer = self.get_writer(&mut writer, false)?;
 
         if is_pre_process {
             let len = log_writer.len;
@@ -187,7 +187,7 @@ impl Append for RollingFileAppender {
 
             self.policy.process(&mut file)?;
 
-            let log_writer_new = self.get_writer(&mut writer)?;
+            let log_writer_new = self.get_writer(&mut writer, false)?;
             self.encoder.encode(log_writer_new, record)?;
             log_writer_new.flush()?;
         } else {
@@ -219,18 +219,26 @@ impl RollingFileAppender {
         }
     }
 
-    fn get_writer<'a>(&self, writer: &'a mut Option<LogWriter>) -> io::Result<&'a mut LogWriter> {
+    // The file is only truncated when the appender opens it for the first time. A later
+    // reopen happens after a roll; if the roll failed the file is still there and holds
+    // records that must not be discarded.
+    fn get_writer<'a>(
+        &self,
+        writer: &'a mut Option<LogWriter>,
+        initial: bool,
+    ) -> io::Result<&'a mut LogWriter> {
         if writer.is_none() {
+            let truncate = initial && !self.append;
             let file = OpenOptions::new()
                 .write(true)
-                .append(self.append)
-                .truncate(!self.append)
+                .append(!truncate)
+                .truncate(truncate)
                 .create(true)
                 .open(&self.path)?;
-            let len = if self.append {
-                file.metadata()?.len()
-            } else {
+            let len = if truncate {
                 0
+            } else {
+                file.metadata()?.len()
             };
             *writer = Some(LogWriter {
                 file: BufWriter::with_capacity(1024, file),
@@ -295,7 +303,7 @@ impl RollingFileAppenderBuilder {
         }
 
         // open the log file immediately
-        appender.get_writer(&mut appender.writer.lock())?;
+        appender.get_writer(&mut appender.writer.lock(), true)?;
 
         Ok(appender)
     }
